@@ -185,6 +185,7 @@ protected:
   {
     if constexpr (std::is_function_v<std::remove_pointer_t<T>>) {
       auto sandbox = finder(ex);
+      if (sandbox == nullptr) return nullptr; // no live sandbox owns the example address
       return sandbox->template impl_get_unsandboxed_pointer<T>(p);
     } else {
       auto base = Mask & reinterpret_cast<uintptr_t>(ex);
@@ -197,6 +198,7 @@ protected:
   {
     if constexpr (std::is_function_v<std::remove_pointer_t<T>>) {
       auto sandbox = finder(ex);
+      if (sandbox == nullptr) return 0;
       return sandbox->template impl_get_sandboxed_pointer<T>(p);
     } else {
       auto base = Mask & reinterpret_cast<uintptr_t>(ex);
